@@ -59,6 +59,30 @@ Fixpoint deadline_values (cur:N) (prev:N) (l:list (cop * N)) (evs:list tev) : bo
       end
   end.
 
+(* the same seen from the transport: whenever bytes are written, the deadline armed on the transport
+   (the argument of the latest SetWriteDeadline, whoever made it; none yet = no deadline) is the one in
+   force for that frame.  An implementation may skip redundant SetWriteDeadline calls; it may not
+   write a message frame under the deadline a control frame left behind, or the reverse. *)
+Fixpoint armed_ok (want eff:N) (es:list tev) : bool * N :=
+  match es with
+  | [] => (true, eff)
+  | TSetDL x :: r => armed_ok want x r
+  | TSetDLFail x :: r => armed_ok want x r
+  | (TWrite _ | TWriteFail _) :: r => if eff =? want then armed_ok want eff r else (false, eff)
+  | _ :: r => armed_ok want eff r
+  end.
+Fixpoint deadline_effective (cur prev eff:N) (l:list (cop * N)) (evs:list tev) : bool :=
+  match l with
+  | [] => true
+  | (o, cnt) :: rest =>
+      let mine := firstn (N.to_nat (cnt - prev)) (skipn (N.to_nat prev) evs) in
+      match o with
+      | COp (WSetDeadline d) => deadline_effective d cnt eff rest evs
+      | COp (WControl _ _ dl) => let '(ok, eff') := armed_ok dl eff mine in ok && deadline_effective cur cnt eff' rest evs
+      | _ => let '(ok, eff') := armed_ok cur eff mine in ok && deadline_effective cur cnt eff' rest evs
+      end
+  end.
+
 Definition spec (k:wcase) (o:wobs) : option (N * tape) :=
   let wire := wire_of (wo_evs o) in
   let '(fs, t) := parse_frames wire in
@@ -69,6 +93,7 @@ Definition spec (k:wcase) (o:wobs) : option (N * tape) :=
   else if negb (later_fail false (combine (wk_ops k) (wo_res o))) then Some (71, []) (* a later write reported success *)
   else if negb (deadlines_ok false (wo_evs o)) then Some (72, [])                     (* a Write without its deadline *)
   else if negb (deadline_values 0 0 (combine (wk_ops k) (wo_cnt o)) (wo_evs o)) then Some (74, [])  (* a frame under a stale deadline *)
+  else if negb (deadline_effective 0 0 0 (combine (wk_ops k) (wo_cnt o)) (wo_evs o)) then Some (75, [])  (* bytes written while another deadline was armed *)
   else if negb (invalid_quiet (w_negotiated (wk_cfg k)) ast0 0 (combine (wk_ops k) (combine (wo_res o) (wo_cnt o))) (wo_evs o))
        then Some (73, [])                                                            (* an invalid request wrote something *)
   else match wire_events (map fst fs) with
